@@ -38,7 +38,13 @@ GenCmd(st, sd, t) ==
            then undo down to the text as first read - text and file differ although a save lies in between *)
         ph == t % 16
         scen == sd % 2 = 0 /\ ph >= 11 /\ Cur(st).path # ""
-    IN IF scen /\ ph = 11 THEN [k |-> "a", n |-> 1]
+        (* in the scripts with seed = 3 mod 4: three buffers, the current one modified, then :ew to the one in the third slot *)
+        scew == sd % 4 = 3 /\ ph >= 3 /\ ph <= 8
+    IN IF scew /\ ph \in {3, 4, 5} THEN [k |-> "e", path |-> AllPaths[ph - 2], force |-> TRUE]
+       ELSE IF scew /\ ph = 6 THEN [k |-> "a", n |-> 1]
+       ELSE IF scew /\ ph = 7 THEN [k |-> "e", path |-> AllPaths[1], force |-> FALSE, ew |-> TRUE]
+       ELSE IF scew /\ ph = 8 THEN [k |-> "w", path |-> "", whole |-> TRUE, beg |-> 0, end |-> 0, force |-> TRUE, fault |-> ""]
+       ELSE IF scen /\ ph = 11 THEN [k |-> "a", n |-> 1]
        ELSE IF scen /\ ph = 12 THEN [k |-> "w", path |-> "", whole |-> TRUE, beg |-> 0, end |-> 0, force |-> TRUE, fault |-> ""]
        ELSE IF scen /\ ph = 13 THEN [k |-> "e", path |-> "", force |-> TRUE]
        ELSE IF scen /\ ph \in {14, 15} THEN [k |-> "u"]
@@ -49,7 +55,10 @@ GenCmd(st, sd, t) ==
        (* with the table full, go back to the least recently used buffers by path: the last slots of the table *)
        ELSE IF k < 10 /\ Len(st.tab) = 16 /\ st.tab[16 - Pick(sd, t, 4, 2)].path # ""
             THEN [k |-> "e", path |-> st.tab[16 - Pick(sd, t, 4, 2)].path, force |-> f(5)]
-       ELSE IF k < 18 THEN [k |-> "e", path |-> PathOf(sd, t, 2), force |-> f(5)]
+       (* :ew to a path that is open somewhere behind the alternate buffer *)
+       ELSE IF k >= 10 /\ k < 13 /\ Len(st.tab) >= 3 /\ st.tab[3 + Pick(sd, t, 4, Len(st.tab) - 2)].path # ""
+            THEN [k |-> "e", path |-> st.tab[3 + Pick(sd, t, 4, Len(st.tab) - 2)].path, force |-> f(6), ew |-> TRUE]
+       ELSE IF k < 18 THEN [k |-> "e", path |-> PathOf(sd, t, 2), force |-> f(5), ew |-> Pick(sd, t, 5, 6) = 0]
        ELSE IF k < 23 THEN [k |-> "e", path |-> "", force |-> f(3)]
        ELSE IF k < 26 THEN [k |-> "top"]
        ELSE IF k < 35 THEN [k |-> "a", n |-> 1 + Pick(sd, t, 2, 2)]
@@ -92,7 +101,7 @@ LineStr(cs) == IF cs = <<>> THEN <<>>
                        [] Head(cs).k = "w" -> <<119, 33>> [] Head(cs).k = "e" -> <<101, 33, 32>> \o Str(Head(cs).path))
                     \o (IF Len(cs) > 1 THEN <<124>> ELSE <<>>) \o LineStr(Tail(cs))
 Typed(st, c) ==
-    CASE c.k = "e" -> <<101>> \o Bang(c.force) \o Sp(c.path) \o <<10>>
+    CASE c.k = "e" -> <<101>> \o (IF "ew" \in DOMAIN c /\ c.ew THEN <<119>> ELSE <<>>) \o Bang(c.force) \o Sp(c.path) \o <<10>>
       [] c.k = "w" -> (IF c.whole THEN <<>> ELSE Num(c.beg + 1) \o <<44>> \o Num(c.end)) \o <<119>> \o Bang(c.force) \o Sp(c.path) \o <<10>>
       [] c.k = "q" -> <<113>> \o Bang(c.force) \o <<10>>
       [] c.k = "wq" -> <<119, 113>> \o Bang(c.force) \o <<10>>
